@@ -1262,6 +1262,368 @@ func collectTracked(body *ast.BlockStmt, fset *token.FileSet) map[string]bool {
 	return tracked
 }
 
+// ---------------------------------------------------------------- message-level entry points
+// Hand-written code that buffers a payload before a generated decoder runs: every `make([]byte, E)` whose
+// size E is a length declared by a message header (mentions payloadLen) must be dominated by a guard that
+// compares exactly that expression, unconverted and without arithmetic, against a constant:
+//     if E > C { return ... }      (or >=; or the make sits in the else branch / in the body of `if E <= C`)
+// so that in uint32 arithmetic nothing can wrap.  Anything else is reported as unguarded.
+type EntryAlloc struct {
+	File  string `json:"file"`
+	Func  string `json:"func"`
+	Line  int    `json:"line"`
+	Size  string `json:"size"`
+	OK    bool   `json:"ok"`
+	Op    string `json:"op,omitempty"`
+	Limit int64  `json:"limit,omitempty"`
+	Guard string `json:"guard,omitempty"`
+	Why   string `json:"why,omitempty"`
+}
+
+type guardFact struct {
+	x     string
+	op    string
+	limit int64
+	text  string
+}
+
+type entryScan struct {
+	fset   *token.FileSet
+	consts map[string]ast.Expr
+	memo   map[string]*int64
+	out    []EntryAlloc
+	file   string
+	fn     string
+}
+
+func (es *entryScan) src(n ast.Node) string {
+	var b bytes.Buffer
+	printer.Fprint(&b, es.fset, n)
+	return strings.Join(strings.Fields(b.String()), " ")
+}
+
+// constant evaluation of integer expressions (literals, named constants, + - * << >>, parentheses, conversions)
+func (es *entryScan) constVal(e ast.Expr, depth int) (int64, bool) {
+	if depth > 20 {
+		return 0, false
+	}
+	switch x := e.(type) {
+	case *ast.BasicLit:
+		return intLit(x)
+	case *ast.ParenExpr:
+		return es.constVal(x.X, depth+1)
+	case *ast.Ident:
+		if ce, ok := es.consts[x.Name]; ok {
+			return es.constVal(ce, depth+1)
+		}
+	case *ast.CallExpr:
+		if id, ok := x.Fun.(*ast.Ident); ok && len(x.Args) == 1 {
+			if _, isBasic := basicSize[id.Name]; isBasic || id.Name == "int" || id.Name == "uint" {
+				return es.constVal(x.Args[0], depth+1)
+			}
+		}
+	case *ast.BinaryExpr:
+		a, ok1 := es.constVal(x.X, depth+1)
+		b, ok2 := es.constVal(x.Y, depth+1)
+		if ok1 && ok2 {
+			switch x.Op {
+			case token.ADD:
+				return a + b, true
+			case token.SUB:
+				return a - b, true
+			case token.MUL:
+				return a * b, true
+			case token.SHL:
+				if b >= 0 && b < 62 {
+					return a << uint(b), true
+				}
+			case token.SHR:
+				if b >= 0 && b < 62 {
+					return a >> uint(b), true
+				}
+			}
+		}
+	}
+	return 0, false
+}
+
+func rootIdent(e ast.Expr) string {
+	for {
+		switch x := e.(type) {
+		case *ast.Ident:
+			return x.Name
+		case *ast.SelectorExpr:
+			e = x.X
+		case *ast.StarExpr:
+			e = x.X
+		case *ast.ParenExpr:
+			e = x.X
+		case *ast.IndexExpr:
+			e = x.X
+		default:
+			return ""
+		}
+	}
+}
+
+func textRoot(s string) string {
+	s = strings.TrimLeft(s, "*(")
+	if i := strings.IndexAny(s, ".[) "); i >= 0 {
+		s = s[:i]
+	}
+	return s
+}
+
+func isDeclaredLen(s string) bool { return strings.Contains(s, "payloadLen") }
+
+// guardOf recognises `X > C`, `X >= C` (returns the fact that holds when the condition is FALSE) and
+// `X <= C`, `X < C` (fact holds when TRUE; reported with neg = true)
+func (es *entryScan) guardOf(cond ast.Expr) (g guardFact, neg bool, ok bool) {
+	if p, isParen := cond.(*ast.ParenExpr); isParen {
+		return es.guardOf(p.X)
+	}
+	be, isBin := cond.(*ast.BinaryExpr)
+	if !isBin {
+		return
+	}
+	// `C < X` etc.: the same comparison written the other way round
+	if mirror, has := map[token.Token]token.Token{token.LSS: token.GTR, token.LEQ: token.GEQ, token.GTR: token.LSS, token.GEQ: token.LEQ}[be.Op]; has {
+		if _, cok := es.constVal(be.X, 0); cok && isDeclaredLen(es.src(be.Y)) {
+			be = &ast.BinaryExpr{X: be.Y, Op: mirror, Y: be.X, OpPos: be.OpPos}
+		}
+	}
+	switch be.X.(type) {
+	case *ast.SelectorExpr, *ast.Ident:
+	default:
+		return
+	}
+	x := es.src(be.X)
+	if !isDeclaredLen(x) {
+		return
+	}
+	c, cok := es.constVal(be.Y, 0)
+	if !cok || c < 0 {
+		return
+	}
+	switch be.Op {
+	case token.GTR:
+		return guardFact{x, "CGt", c, es.src(cond)}, false, true
+	case token.GEQ: // X >= C rejected: allocation only for X < C
+		return guardFact{x, "CGe", c, es.src(cond)}, false, true
+	case token.LEQ:
+		return guardFact{x, "CGt", c, es.src(cond)}, true, true
+	case token.LSS:
+		return guardFact{x, "CGe", c, es.src(cond)}, true, true
+	}
+	return
+}
+
+func terminates(b *ast.BlockStmt) bool {
+	if b == nil || len(b.List) == 0 {
+		return false
+	}
+	switch x := b.List[len(b.List)-1].(type) {
+	case *ast.ReturnStmt:
+		return true
+	case *ast.ExprStmt:
+		if ce, ok := x.X.(*ast.CallExpr); ok {
+			if id, ok := ce.Fun.(*ast.Ident); ok && id.Name == "panic" {
+				return true
+			}
+		}
+	}
+	return false
+}
+
+func assignedRoots(n ast.Node) map[string]bool {
+	m := map[string]bool{}
+	ast.Inspect(n, func(x ast.Node) bool {
+		switch y := x.(type) {
+		case *ast.AssignStmt:
+			for _, l := range y.Lhs {
+				if r := rootIdent(l); r != "" {
+					m[r] = true
+				}
+			}
+		case *ast.IncDecStmt:
+			if r := rootIdent(y.X); r != "" {
+				m[r] = true
+			}
+		case *ast.RangeStmt:
+			for _, l := range []ast.Expr{y.Key, y.Value} {
+				if l != nil {
+					if r := rootIdent(l); r != "" {
+						m[r] = true
+					}
+				}
+			}
+		}
+		return true
+	})
+	return m
+}
+
+func dropRoots(gs []guardFact, roots map[string]bool) []guardFact {
+	var out []guardFact
+	for _, g := range gs {
+		keep := true
+		for r := range roots {
+			if g.x == r || strings.HasPrefix(g.x, r+".") || strings.HasPrefix(g.x, "*"+r) {
+				keep = false
+			}
+		}
+		if keep {
+			out = append(out, g)
+		}
+	}
+	return out
+}
+
+// exprs: look for make([]byte, E) in the expressions of one simple statement
+func (es *entryScan) exprs(n ast.Node, gs []guardFact) {
+	ast.Inspect(n, func(x ast.Node) bool {
+		if fl, ok := x.(*ast.FuncLit); ok {
+			es.stmts(fl.Body.List, nil) // a closure may run later: no guard is inherited
+			return false
+		}
+		ce, ok := x.(*ast.CallExpr)
+		if !ok {
+			return true
+		}
+		id, ok := ce.Fun.(*ast.Ident)
+		if !ok || id.Name != "make" || len(ce.Args) < 2 {
+			return true
+		}
+		size := es.src(ce.Args[1])
+		if !isDeclaredLen(size) {
+			return true
+		}
+		ea := EntryAlloc{File: es.file, Func: es.fn, Line: es.fset.Position(ce.Pos()).Line, Size: size}
+		for _, g := range gs {
+			if g.x == size {
+				ea.OK, ea.Op, ea.Limit, ea.Guard = true, g.op, g.limit, g.text
+			}
+		}
+		if !ea.OK {
+			ea.Why = "no dominating guard of the form `" + size + " > <constant>` (plain comparison of the declared length itself)"
+		}
+		es.out = append(es.out, ea)
+		return true
+	})
+}
+
+func (es *entryScan) stmts(list []ast.Stmt, gs []guardFact) {
+	gs = append([]guardFact(nil), gs...)
+	for _, s := range list {
+		switch x := s.(type) {
+		case *ast.IfStmt:
+			cur := gs
+			if x.Init != nil {
+				es.exprs(x.Init, cur)
+				cur = dropRoots(cur, assignedRoots(x.Init))
+			}
+			es.exprs(x.Cond, cur)
+			g, neg, ok := es.guardOf(x.Cond)
+			if x.Init != nil {
+				ok = ok && !assignedRoots(x.Init)[textRoot(g.x)]
+			}
+			thenG, elseG := cur, cur
+			if ok && neg {
+				thenG = append(append([]guardFact(nil), cur...), g)
+			} else if ok {
+				elseG = append(append([]guardFact(nil), cur...), g)
+			}
+			es.stmts(x.Body.List, thenG)
+			switch el := x.Else.(type) {
+			case *ast.BlockStmt:
+				es.stmts(el.List, elseG)
+			case *ast.IfStmt:
+				es.stmts([]ast.Stmt{el}, elseG)
+			}
+			gs = dropRoots(cur, assignedRoots(x))
+			if ok && !neg && x.Else == nil && terminates(x.Body) && !assignedRoots(x)[textRoot(g.x)] {
+				gs = append(gs, g)
+			}
+		case *ast.BlockStmt:
+			es.stmts(x.List, gs)
+			gs = dropRoots(gs, assignedRoots(x))
+		case *ast.ForStmt, *ast.RangeStmt, *ast.SwitchStmt, *ast.TypeSwitchStmt, *ast.SelectStmt:
+			inner := dropRoots(gs, assignedRoots(x))
+			ast.Inspect(x, func(y ast.Node) bool {
+				if b, ok := y.(*ast.BlockStmt); ok {
+					es.stmts(b.List, inner)
+					return false
+				}
+				if cc, ok := y.(*ast.CaseClause); ok {
+					es.stmts(cc.Body, inner)
+					return false
+				}
+				if cc, ok := y.(*ast.CommClause); ok {
+					es.stmts(cc.Body, inner)
+					return false
+				}
+				return true
+			})
+			gs = inner
+		case *ast.LabeledStmt:
+			es.stmts([]ast.Stmt{x.Stmt}, gs)
+			gs = dropRoots(gs, assignedRoots(x))
+		default:
+			es.exprs(s, gs)
+			gs = dropRoots(gs, assignedRoots(s))
+		}
+	}
+}
+
+func scanEntryAllocs(dir string) ([]EntryAlloc, error) {
+	es := &entryScan{fset: token.NewFileSet(), consts: map[string]ast.Expr{}}
+	ents, err := os.ReadDir(dir)
+	if err != nil {
+		return nil, err
+	}
+	var files []*ast.File
+	var names []string
+	for _, en := range ents {
+		n := en.Name()
+		if !strings.HasSuffix(n, ".go") || strings.HasSuffix(n, "_test.go") || strings.HasPrefix(n, "generated_") {
+			continue
+		}
+		f, err := parser.ParseFile(es.fset, filepath.Join(dir, n), nil, 0)
+		if err != nil {
+			return nil, err
+		}
+		files = append(files, f)
+		names = append(names, n)
+		for _, d := range f.Decls {
+			if gd, ok := d.(*ast.GenDecl); ok && gd.Tok == token.CONST {
+				for _, sp := range gd.Specs {
+					vs := sp.(*ast.ValueSpec)
+					for i, nm := range vs.Names {
+						if i < len(vs.Values) {
+							es.consts[nm.Name] = vs.Values[i]
+						}
+					}
+				}
+			}
+		}
+	}
+	for i, f := range files {
+		es.file = names[i]
+		for _, d := range f.Decls {
+			fd, ok := d.(*ast.FuncDecl)
+			if !ok || fd.Body == nil {
+				continue
+			}
+			es.fn = fd.Name.Name
+			if fd.Recv != nil && len(fd.Recv.List) == 1 {
+				es.fn = typeName(fd.Recv.List[0].Type) + "." + fd.Name.Name
+			}
+			es.stmts(fd.Body.List, nil)
+		}
+	}
+	return es.out, nil
+}
+
 func main() {
 	repo := flag.String("repo", os.Getenv("VERIF_REPO"), "repository root")
 	out := flag.String("out", "", "output directory")
@@ -1386,12 +1748,34 @@ func main() {
 		v.WriteString(fmt.Sprintf("  (%d, prog_%s)%s\n", i, funcs[i].Name, sep))
 	}
 	v.WriteString("].\n")
+	entries, eerr := scanEntryAllocs(dir)
+	if eerr != nil {
+		fmt.Fprintln(os.Stderr, "go-ir:", eerr)
+		os.Exit(1)
+	}
+	v.WriteString("(* message-level buffering of a payload whose length a header declares: the guard (operator, constant) that dominates each make([]byte, declared length) *)\n")
+	v.WriteString("Definition entry_guards : list (cmp * Z) := [")
+	nbad := 0
+	first := true
+	for _, ea := range entries {
+		if !ea.OK {
+			nbad++
+			continue
+		}
+		if !first {
+			v.WriteString("; ")
+		}
+		first = false
+		v.WriteString(fmt.Sprintf("(%s, %d)", ea.Op, ea.Limit))
+	}
+	v.WriteString("].\n")
+	v.WriteString(fmt.Sprintf("Definition entry_unguarded : Z := %d.\n", nbad))
 	if err := os.WriteFile(filepath.Join(*out, "DecPrograms.v"), []byte(v.String()), 0o644); err != nil {
 		fmt.Fprintln(os.Stderr, "go-ir:", err)
 		os.Exit(1)
 	}
 	meta := map[string]interface{}{"file": file, "functions": funcs, "sites": sites, "hasEnoughBytes_op": pf.heOp,
-		"hasEnoughBytes_error": pf.heErr, "other_functions": others, "param_consts": pf.consts}
+		"hasEnoughBytes_error": pf.heErr, "other_functions": others, "param_consts": pf.consts, "entry_allocs": entries}
 	js, _ := json.MarshalIndent(meta, "", " ")
 	if err := os.WriteFile(filepath.Join(*out, "programs.json"), js, 0o644); err != nil {
 		fmt.Fprintln(os.Stderr, "go-ir:", err)
@@ -1404,5 +1788,6 @@ func main() {
 			fmt.Printf("UNTRANSLATED %s: %s\n", fi.Name, fi.Error)
 		}
 	}
-	fmt.Printf("go-ir: %d decoders, %d translated, %d failed, %d sites\n", len(funcs), len(funcs)-nfail, nfail, len(sites))
+	fmt.Printf("go-ir: %d decoders, %d translated, %d failed, %d sites; %d message-level allocations of a declared length, %d unguarded\n",
+		len(funcs), len(funcs)-nfail, nfail, len(sites), len(entries), nbad)
 }
